@@ -260,6 +260,7 @@ class Ctx:
 
 
 def load_known(prop: str) -> list[dict]:
+    """committed known-findings file (never written at run time)"""
     if not KNOWN_FINDINGS.exists():
         return []
     data = json.loads(KNOWN_FINDINGS.read_text())
@@ -312,7 +313,11 @@ def write_evidence(ctx: Ctx, mod: Any, violations: int) -> None:
 def decide(ctx: Ctx, mod: Any) -> int:
     """The decision rule of DESIGN.md §0."""
     # known findings re-confirmed on this run
+    seen_ids = set()
     for e in ctx.known:
+        if e['id'] in seen_ids:
+            continue
+        seen_ids.add(e['id'])
         if e.get('status') == 'known' and ctx.known_hits.get(e['id']):
             print(f"KNOWN-FINDING: property={ctx.prop} {e['id']} {e['what']} "
                   f"[{ctx.known_hits[e['id']]} matching case(s) on this run]")
